@@ -91,6 +91,7 @@ func (o *signalHandler) addSignalUser(userID uint64, signalID, messageID uint32,
 		o.forgetSignalUser(userID, from)
 	}
 	newUser.contextID = e.MakeHandler(f, q, cl)
+	vhook.Gate("signal.add.made", "user", userID, "signal", signalID)
 
 	o.signalsMutex.Lock()
 	o.signals = append(o.signals, newUser)
